@@ -114,7 +114,7 @@ def handle : List String → Option String
       | "task" =>
         match (getNat kv "node").bind (getNode dag), getNat kv "index" with
         | some f, some index =>
-          let ws := fusedWrites dag (f.name + 1) index f
+          let ws := fusedWrites dag index (f.name + 1) f
           let keys := dedupKeys (ws.map (·.1)) []
           some ("T " ++ Render.graph rFKey keys (fusedGraph dag f index) ++ "#" ++
                 joinWith "," ((fusedArgs dag f index).map rFKey))
